@@ -134,7 +134,7 @@ PROPS = {
         "shrink_budget": 3,
     },
     "C03": {
-        "lean_modules": ["Props.Facts03"],
+        "lean_modules": ["Props.Facts03", "Props.Gen03m", "Props.GenT03m"],
         "groups": [{"name": "C03", "quick": 1200, "thorough": 40000, "workers": 8},
                    # the same worlds and sequences in processes whose cache holds 1, 2, 3 and 5 entries: eviction and re-fetch
                    {"name": "C03", "quick": 96, "thorough": 3000, "workers": 2, "config": "[network]\ncache_size = 1\n"},
@@ -231,7 +231,7 @@ PROPS = {
                         "the width theorems are about canonical styled text (what servitor's own style layer produces); hostile strings are covered by the correspondence check only"],
     },
     "C17": {
-        "lean_modules": ["Props.Gen17", "Props.Facts17", "Props.GenT17"],
+        "lean_modules": ["Props.Gen17", "Props.Facts17", "Props.GenT17", "Props.Gen03m", "Props.GenT03m"],
         "groups": [{"name": "C17", "quick": 8000, "thorough": 300000},
                    # the floating-point operations the translated GetNumber is interpreted with, against Go's own
                    {"name": "F64", "quick": 4000, "thorough": 400000}],
@@ -278,7 +278,7 @@ PROPS = {
         "assumptions": ["Config.Safe is the only configuration hypothesis used by the panic-freedom theorems of C06/C07/C20"],
     },
     "C20": {
-        "lean_modules": ["Props.Facts19", "Props.C20b", "Props.Facts20", "Props.Gen20", "Props.GenT20"],
+        "lean_modules": ["Props.Facts19", "Props.C20b", "Props.Facts20", "Props.Gen20", "Props.GenT20", "Props.Gen03m", "Props.GenT03m"],
         "groups": [{"name": "C20", "quick": 600, "thorough": 20000, "workers": 12},
                    {"name": "media", "quick": 600, "thorough": 20000, "workers": 12},
                    # configuration files through the real parser: the hook that reaches openExternally is the configured one
